@@ -33,12 +33,16 @@ type Run struct {
 	draws  []int             // per nesting level of Custom bodies: Draw calls made on that T so far
 
 	CtxViolations []string
+	Rep           []string // state-machine events with begin/end markers (oracle of C08)
 }
 
 func NewRun() *Run { return &Run{draws: []int{0}} }
 
 func (r *Run) ev(s string) {
 	r.Events = append(r.Events, s)
+	if s == "UChk" || strings.HasPrefix(s, "(UAct") {
+		r.Rep = append(r.Rep, s)
+	}
 	switch {
 	case s == "UCustomBegin":
 		r.draws = append(r.draws, 0)
@@ -429,6 +433,24 @@ func (p *Program) exec(t *rapid.T, s *Stmt, env []Val, r *Run) Val {
 			}
 		})
 		return p.exec(t, s.Next, env, r)
+	case "failv":
+		k := map[string]string{"error": "KError", "fatal": "KFatal", "panic": "KPanic"}[s.Kind]
+		m := floorMod(valZ(s.E.eval(env)), 50).Uint64()
+		depth := int(floorMod(valZ(s.D.eval(env)), 4).Int64())
+		r.ev(fmt.Sprintf("(USignal %s (MUser %d) %d)", k, m, s.Id+100*depth))
+		recurse(depth, func() {
+			tramps[s.Id](func() {
+				switch s.Kind {
+				case "error":
+					t.Errorf("m%d", m)
+				case "fatal":
+					t.Fatalf("m%d", m)
+				default:
+					panic(fmt.Sprintf("m%d", m))
+				}
+			})
+		})
+		return p.exec(t, s.Next, env, r)
 	case "skip":
 		r.ev("(USkip " + msgCoq(s.Variant, s.Msg) + ")")
 		switch s.Variant {
@@ -510,10 +532,25 @@ func (p *Program) exec(t *rapid.T, s *Stmt, env []Val, r *Run) Val {
 				p.exec(t, s.A, append(env[:len(env):len(env)], state), r)
 			}
 		}
-		tramps[s.Id](func() { t.Repeat(actions) })
+		r.Rep = append(r.Rep, fmt.Sprintf("B %d %v", len(s.Acts), s.A != nil))
+		func() {
+			defer func() { r.Rep = append(r.Rep, "E") }()
+			tramps[s.Id](func() { t.Repeat(actions) })
+		}()
 		return p.exec(t, s.Next, append(env[:len(env):len(env)], state), r)
 	}
 	panic("exec " + s.Op)
+}
+
+// recurse calls f below d directly recursive frames: the failure site then depends on d
+//
+//go:noinline
+func recurse(d int, f func()) {
+	if d <= 0 {
+		f()
+		return
+	}
+	recurse(d-1, f)
 }
 
 // countDraws: Draw calls made so far on the current T (Custom bodies run on an inner T)
